@@ -926,6 +926,15 @@ func (g *gen) makeStructs() {
 			g.insts = append(g.insts, Ref(g.generics[len(g.generics)-1], Ref(d)))
 		}
 	}
+	// a map keyed by an enum having two exported constants with the same value
+	for _, e := range g.enums {
+		if e.Tags["duplicates"] && len(g.structs) > 0 {
+			st := g.structs[g.r.Intn(len(g.structs))]
+			st.Fields = append(st.Fields, &Field{Name: "ByDup" + e.Name, Type: Map(Ref(e), Basic("int"))})
+			g.p.Feature("map-keyed-by-enum-with-duplicate-values")
+			break
+		}
+	}
 	// an embedded unexported struct type with exported fields
 	if g.opts.Embedded && g.pr(0.4) {
 		inner := g.add(&Decl{Name: g.fresh("innerPart"), Kind: DStruct, File: "other.go", Fields: []*Field{{Name: "PartA", Type: Basic("int")}, {Name: "PartB", Type: Basic("string"), Tag: `json:"part_b"`}}})
